@@ -1237,3 +1237,30 @@ def explore(src, runner, contracts=None, pre=(), max_paths=400, setup=None):
         out.append(Path(list(ex.pc), oc, v, ex))
         if len(out) > max_paths: raise Unsupported("more than %d paths" % max_paths)
     return out
+
+
+def explore_thunk(ex, thunk, base_pc=None, max_paths=64):
+    """path enumeration of a lazily evaluated element (closure bound to executor `ex`, e.g. Seq.fn(j)) after the path that
+    created it has finished: the executor's path state is temporarily replaced; returns [Path]"""
+    saved = (ex.oracle, ex.taken, ex.pc, ex.abnormal, ex.requires)
+    base = list(ex.pc if base_pc is None else base_pc)
+    out = []; stack = [[]]
+    try:
+        while stack:
+            oracle = stack.pop()
+            ex.oracle = list(oracle); ex.taken = []; ex.pc = list(base); ex.abnormal = []; ex.requires = []
+            try:
+                v = thunk(); oc = 'return'
+            except Raised as r:
+                v = r.exc; oc = 'raise'
+            for i in range(len(oracle), len(ex.taken)):
+                t = ex.taken[i]
+                if isinstance(t, tuple): continue
+                stack.append([x[1] if isinstance(x, tuple) else x for x in ex.taken[:i]] + [not t])
+            if z3_check(ex.pc, 10000) == z3.unsat: continue
+            p = Path(list(ex.pc), oc, v, ex); p.abnormal = list(ex.abnormal)
+            out.append(p)
+            if len(out) > max_paths: raise Unsupported("more than %d paths in a lazily evaluated element" % max_paths)
+    finally:
+        ex.oracle, ex.taken, ex.pc, ex.abnormal, ex.requires = saved
+    return out
